@@ -77,32 +77,41 @@ def r1_one_reader(facts, rep):
 
 # ---- R3: counters -----------------------------------------------------------------------------------------------
 def r3_counters(facts, rep):
-    rep.rule("C07-R3", "independent of the literal's length: the fixed-width counters of the reader (fraction digits, exponent) are "
-                       "only updated with checked_add / checked_mul whose None leads to Err; the only unchecked fixed-width "
-                       "arithmetic is `b - b'0'` under the digit range test")
+    rep.rule("C07-R3", "independent of the literal's length: in the reader and the helpers it calls, the fixed-width counters "
+                       "(fraction digits, exponent) are only updated with checked_add / checked_mul whose None leads to Err; the "
+                       "only unchecked fixed-width arithmetic is `b - b'0'` under the digit range test")
     body = anchor(rep, "C07-R3", facts, FROM_STR)
     if body is None:
         return
+    from ..callgraph import CallGraph
+    cg = CallGraph(facts)
+    tree = [facts.fn(p) for p in sorted(cg.reachable([FROM_STR])) if facts.fn(p) is not None and facts.fn(p).promoted < 0
+            and (p == FROM_STR or p.startswith("rational::") or p.startswith(FROM_STR))]
     n = 0
-    for blk, i, s in body.stmts():
-        rv = s["rv"]
-        if rv["k"] == "binop" and rv["op"].replace("WithOverflow", "").replace("Unchecked", "") in ("Add", "Sub", "Mul", "Shl"):
-            n += 1
-            consts = [F.const_val(o) for o in (rv["a"], rv["b"]) if o["k"] == "const"]
-            okk = rv["op"].startswith("Sub") and consts == [48]
-            rep.ob("C07-R3", "unchecked:%s#%d" % (rv["op"], n), okk, "fixed-width %s with constants %s" % (rv["op"], consts), body.site(s["span"]))
-    chk = flow.calls_named(body, lambda n_: n_.startswith("core::num::<impl u32>::checked_") or n_.startswith("core::num::<impl usize>::checked_"))
-    rep.floor("C07-R3", "checked counter updates", len(chk), 2)
-    clos = [b for b in facts.lib_bodies() if b.path.startswith(FROM_STR + "::{closure")]
-    for b in clos:
+    n_chk = 0
+    for b in tree:
+        if b.from_derive():
+            continue
         for blk, i, s in b.stmts():
             rv = s["rv"]
-            if rv["k"] == "binop" and rv["op"].replace("WithOverflow", "") in ("Add", "Mul"):
-                rep.ob("C07-R3", "closure-unchecked:%s" % b.path, False, "unchecked arithmetic in %s" % b.path, b.site(s["span"]))
+            if rv["k"] == "binop" and rv["op"].replace("WithOverflow", "").replace("Unchecked", "") in ("Add", "Sub", "Mul", "Shl"):
+                tys = {b.local_ty(F.op_local(o)) for o in (rv["a"], rv["b"]) if F.op_local(o) is not None}
+                if not tys & {"u8", "u16", "u32", "u64", "usize", "i32", "i64"}:
+                    continue
+                n += 1
+                consts = [F.const_val(o) for o in (rv["a"], rv["b"]) if o["k"] == "const"]
+                okk = rv["op"].startswith("Sub") and consts == [48]
+                rep.ob("C07-R3", "unchecked:%s:%s#%d" % (b.path.rsplit("::", 1)[-1], rv["op"], n), okk, "fixed-width %s with constants %s in %s" % (rv["op"], consts, b.path), b.site(s["span"]))
+        n_chk += len(flow.calls_named(b, lambda n_: n_.startswith("core::num::<impl u32>::checked_") or n_.startswith("core::num::<impl usize>::checked_")))
+    rep.floor("C07-R3", "checked counter updates in the reader's call tree", n_chk, 2)
 
 
 # ---- R4: the reader as a transducer, inductive check --------------------------------------------------------------
 class ReaderDomain(TermDomain):
+    """The text is a scripted byte stream; every way of looking at / taking the next byte reads that script."""
+
+    inline_depth = 8
+
     def __init__(self, facts):
         super().__init__()
         self.facts = facts
@@ -115,30 +124,75 @@ class ReaderDomain(TermDomain):
     def stream(store):
         return store.get(("stream",), ())
 
+    def _is_bytes(self, it, store, a):
+        v = a
+        for _ in range(4):
+            if isinstance(v, Ref):
+                v = it.read_ref(store, v)
+        return v == Sym("bytes")
+
+    def _peek(self, store):
+        s = self.stream(store)
+        if not s:
+            raise core.Undecided("the reader looks further ahead than one step allows")
+        return s[0]
+
+    def _take(self, store):
+        s = self.stream(store)
+        if not s:
+            raise core.Undecided("the reader consumes more than one step allows")
+        if s[0] == "EOF":
+            return None, store
+        s2 = dict(store)
+        s2[("stream",)] = s[1:]
+        s2[("consumed",)] = store.get(("consumed",), ()) + (s[0],)
+        return s[0], s2
+
     def call(self, it, name, args, store, term, frame):
-        if name == PEEK:
-            s = self.stream(store)
-            if not s:
-                raise core.Undecided("the reader looks further ahead than one step allows")
-            if s[0] == "EOF":
-                return [(NONE, store)]
-            s2 = dict(store)
-            s2[(0, 900)] = Const(s[0])
-            return [(some(Ref(0, 900)), s2)]
-        if name == NEXT:
-            s = self.stream(store)
-            if not s:
-                raise core.Undecided("the reader consumes more than one step allows")
-            s2 = dict(store)
-            if s[0] == "EOF":
-                return [(NONE, store)]
-            s2[("stream",)] = s[1:]
-            s2[("consumed",)] = store.get(("consumed",), ()) + (s[0],)
-            return [(some(Const(s[0])), s2)]
-        if name in ("core::str::<impl str>::bytes", "std::iter::Iterator::peekable") or name.endswith("IntoIterator>::into_iter"):
+        m = name.rsplit("::", 1)[-1]
+        if args and self._is_bytes(it, store, args[0]):
+            if m == "peek":
+                b = self._peek(store)
+                if b == "EOF":
+                    return [(NONE, store)]
+                st, ref = it.fresh_slot(store, Const(b))
+                return [(some(ref), st)]
+            if m == "next" and ("Iterator>::next" in name or name == "std::iter::Iterator::next"):
+                b, st = self._take(store)
+                return [(NONE if b is None else some(Const(b)), st)]
+            if m in ("next_if", "next_if_eq") and len(args) == 2:
+                b = self._peek(store)
+                if b == "EOF":
+                    return [(NONE, store)]
+                if m == "next_if_eq":
+                    want = it.read_ref(store, args[1])
+                    hit = [(isinstance(want, Const) and want.v == b, store)]
+                else:
+                    st, ref = it.fresh_slot(store, Const(b))
+                    r = it.apply_closure(it.read_ref(st, args[1]), [ref], st, getattr(it, "_cur_depth", 0))
+                    if r is None:
+                        raise core.Undecided("next_if with an unknown predicate")
+                    hit = []
+                    for k_, v_, s_ in r:
+                        if k_ != "ret" or not isinstance(v_, Const):
+                            raise core.Undecided("next_if predicate returns %r" % (v_,))
+                        hit.append((bool(v_.v), s_))
+                outs = []
+                for h, st in hit:
+                    if h:
+                        b2, st2 = self._take(st)
+                        outs.append((some(Const(b2)), st2))
+                    else:
+                        outs.append((NONE, st))
+                return outs
+            if m in ("into_iter", "by_ref", "peekable", "fuse"):
+                return [(args[0] if isinstance(args[0], Ref) and m == "by_ref" else Sym("bytes"), store)]
+        if name in ("core::str::<impl str>::bytes", "core::str::<impl str>::as_bytes") or (m == "peekable" and args and it.read_ref(store, args[0]) == Sym("bytes")):
+            return [(Sym("bytes"), store)]
+        if name in ("core::str::<impl str>::bytes",) or (name.endswith("IntoIterator>::into_iter") and args and it.read_ref(store, args[0]) == Sym("bytes")):
             return [(Sym("bytes"), store)]
         if name.startswith("core::num::<impl u32>::checked_") and len(args) == 2:
-            op = {"checked_mul": "i*", "checked_add": "i+"}.get(name.split("::")[-1])
+            op = {"checked_mul": "i*", "checked_add": "i+"}.get(m)
             vals = [it.read_ref(store, a) for a in args]
             if op:
                 if all(isinstance(v, Const) for v in vals):
@@ -146,43 +200,28 @@ class ReaderDomain(TermDomain):
                     return [(some(Const(r)), store)] if r < 2 ** 32 else [(NONE, store)]
                 t = T(op, vals[0], vals[1])
                 return [(some(t), self.with_pc(store, T("overflows", t), False)), (NONE, self.with_pc(store, T("overflows", t), True))]
-        if name == "std::option::Option::<T>::ok_or":
-            vals = [it.read_ref(store, a) for a in args]
-            o = vals[0]
-            if isinstance(o, Agg) and o.path == "std::option::Option":
-                return [(ok(o.field(0)) if o.vi == 1 else err(vals[1]), store)]
         return super().call(it, name, args, store, term, frame)
 
 
-def loop_heads(body):
-    cfg = body.cfg
-    hs = [bid for bid, t, sp, nm in flow.calls_named(body, lambda n: n == NEXT) if bid in cfg.reachable_after(bid)]
-    hs.sort(key=lambda h: len(cfg.dom[h]))
-    return hs
-
-
-def named_locals(body, name, ty_pred=None):
-    return [l["id"] for l in body.locals if l["name"] == name and (ty_pred is None or ty_pred(l["ty"]))]
-
-
-def byte_values(body, tier):
+def byte_values(bodies, tier):
     """Quick tier: one representative of every interval of byte values that no comparison constant of the reader separates,
     every comparison constant and all ten digits; thorough tier: all 256 values."""
     if tier == "thorough":
         return list(range(256))
     consts = set()
-    for b in body.blocks:
-        if b["cleanup"]:
-            continue
-        for s in b["stmts"]:
-            if s["k"] == "assign" and s["rv"]["k"] == "binop":
-                for o in (s["rv"]["a"], s["rv"]["b"]):
-                    if o["k"] == "const" and o.get("ty") == "u8" and o.get("val") is not None:
-                        consts.add(int(o["val"]))
-        t = b["term"]["t"]
-        if t["k"] == "switch" and t.get("discr_ty") == "u8":
-            for v, _ in t["targets"]:
-                consts.add(int(v))
+    for body in bodies:
+        for b in body.blocks:
+            if b["cleanup"]:
+                continue
+            for s in b["stmts"]:
+                if s["k"] == "assign" and s["rv"]["k"] == "binop":
+                    for o in (s["rv"]["a"], s["rv"]["b"]):
+                        if o["k"] == "const" and o.get("ty") == "u8" and o.get("val") is not None:
+                            consts.add(int(o["val"]))
+            t = b["term"]["t"]
+            if t["k"] == "switch" and t.get("discr_ty") == "u8":
+                for v, _ in t["targets"]:
+                    consts.add(int(v))
     cuts = sorted({0, 256} | {c for c in consts} | {c + 1 for c in consts})
     vals = set(range(48, 58)) | {c for c in consts if 0 <= c < 256}
     for a, b in zip(cuts, cuts[1:]):
@@ -192,284 +231,320 @@ def byte_values(body, tier):
 
 
 def r4_reader(facts, rep, tier="quick"):
-    rep.rule("C07-R4", "the reader is the decimal-literal transducer (inductive, exhaustive over bytes): with the accumulator "
-                       "standing for an arbitrary N (all digits so far) and the fraction counter for an arbitrary d, from every "
-                       "reachable flag state and for every one of the 256 byte values one turn of the main loop yields N*10+digit "
-                       "(or leaves N unchanged for a leading zero while N = 0), d+1 exactly for digits after the point, accepts one "
-                       "point, hands over to the exponent loop on e/E (optional sign), and rejects everything else; the exponent "
-                       "loop likewise accumulates E*10+digit with checked arithmetic; at the end the value is "
-                       "(-)N * 10^(+-E) / 10^d.  The base case is N = 0, d = 0")
+    from ..absint import induct, evalterm
+    from fractions import Fraction
+    rep.rule("C07-R4", "the reader is the decimal-literal transducer (bisimulation with a value-level reference machine; inductive, "
+                       "exhaustive over byte classes): with N standing for all digits read so far, d for the number of digits after the "
+                       "point and E for the exponent digits, from every reachable pair (finite state of the code, reference state) and "
+                       "for every byte value one turn of the mantissa loop yields N*10+digit (with d+1 exactly after the point), accepts "
+                       "one point, hands over to the exponent loop on e/E with an optional sign, and rejects everything else; the "
+                       "exponent loop accumulates E*10+digit with checked arithmetic; at the end the value is (-)N * 10^(+-E) / 10^d.  "
+                       "Base case N = 0, d = 0.  The loops may sit in helper functions; their state is found by type, not by name")
     body = anchor(rep, "C07-R4", facts, FROM_STR)
     if body is None:
         return
-    heads = loop_heads(body)
-    if not rep.ob("C07-R4", "anchor:loops", len(heads) == 2, "the reader has a main loop and an exponent loop (%d loop heads)" % len(heads), body.site()):
+    ind = induct.Induct(facts, body, lambda: ReaderDomain(facts), budget=80000)
+    all_loops = ind.all_loops()
+    if not rep.ob("C07-R4", "anchor:loops", len(all_loops) == 2, "the reader has a mantissa loop and an exponent loop (%d loops in its call tree)" % len(all_loops), body.site()):
         return
-    H1, H2 = heads
-    is_ratio = lambda ty: "Ratio<" in ty
-    L = {
-        "out": (named_locals(body, "out", is_ratio) or [None])[0],
-        "dots": (named_locals(body, "dots") or [None])[0],
-        "dot": (named_locals(body, "dot") or [None])[0],
-        "init": (named_locals(body, "init") or [None])[0],
-        "neg": (named_locals(body, "neg") or [None])[0],
-        "exp": (named_locals(body, "exp") or [None])[0],
-        "init2": (named_locals(body, "init") + [None, None])[1],
-        "neg2": (named_locals(body, "neg") + [None, None])[1],
-    }
-    if not rep.ob("C07-R4", "anchor:locals", None not in L.values(), "reader state variables found: %s" % {k: v for k, v in L.items()}, body.site()):
-        return
-    frame = 1
-    BYTES = byte_values(body, tier)
+    bodies = [facts.fn(p) for p in sorted({p for p, _ in all_loops} | {body.path}) if facts.fn(p) is not None]
+    BYTES = byte_values(bodies, tier)
     rep.count("byte values per state", len(BYTES))
+    N, D, Ee, TEN = Sym("N"), Sym("d"), Sym("E"), K(10)
+    GRID = [{"N": Fraction(n), "d": Fraction(d), "E": Fraction(e)} for n in (0, 7, 123) for d in (0, 1, 3) for e in (0, 2, 5)]
 
-    def run(start, stream):
-        dom = ReaderDomain(facts)
-        it = core.Interp(facts, dom, budget=60000)
-        if start is None:
-            st0 = {("stream",): tuple(stream)}
-            outs = it.run(body, [Sym("text")], st0, stop={H1, H2})
-        else:
-            st = dict(start[1])
-            st[("stream",)] = tuple(stream)
-            st[("consumed",)] = ()
-            st[("pc",)] = ()
-            outs = it.run(body, [Sym("text")], {}, start=(start[0], st), stop={H1, H2})
-        return dom, it, outs
+    def same(a, b, nzero=False, ezero=False):
+        pc = []
+        if nzero:
+            pc.append((T("Eq", N, Const(0)), True))
+        if ezero:
+            pc.append((T("Eq", Ee, Const(0)), True))
+        try:
+            return evalterm.sem_eq(a, b, GRID, pc)[0]
+        except evalterm.Unrecognised:
+            return False
 
-    def val(it, st, key):
-        return it.read_ref(st, Ref(frame, L[key]))
-
-    # ---- base case: the prologue ------------------------------------------------------------------------------
-    templates = {}
+    # ---- base case: the prologue ---------------------------------------------------------------------------------------
+    entry = {}
+    bad = []
     for first in (45, 43, 53, 46, "EOF"):
         try:
-            dom, it, outs = run(None, [first, 53])
+            segs = ind.from_entry([Sym("text")], {("stream",): (first, 53)})
         except core.Undecided as e:
-            rep.ob("C07-R4", "prologue:%s" % first, False, "undecided: %s" % e, body.site())
+            bad.append("first byte %s: undecided: %s" % (first, e))
             continue
-        stops = [o for o in outs if o.kind == "stop" and o.value == H1]
-        good = len(stops) == 1 and len(outs) == 1
-        if good:
-            st = stops[0].store
-            neg = val(it, st, "neg")
-            cons = st.get(("consumed",), ())
-            good = val(it, st, "out") == K(0) and val(it, st, "dots") == Const(0) and val(it, st, "init") == Const(False) and val(it, st, "dot") == Const(False) \
-                and neg == Const(first == 45) and cons == ((first,) if first in (45, 43) else ())
-            templates[first] = st
-        rep.ob("C07-R4", "prologue:first=%s" % (chr(first) if isinstance(first, int) else first), good,
-               "before the main loop: accumulator 0, no fraction digits, sign %s, %s consumed" % (
-                   "negative" if first == 45 else "positive", "the sign" if first in (45, 43) else "nothing"), body.site())
-    if 53 not in templates:
+        if len(segs) != 1 or segs[0].kind != "stop":
+            bad.append("first byte %s: the prologue ends in %s" % (first, segs))
+            continue
+        entry[first] = segs[0]
+    if bad or len({s_.loop for s_ in entry.values()}) != 1:
+        rep.ob("C07-R4", "prologue", False, "; ".join(bad[:3]) or "the prologue reaches different loops", body.site())
         return
-    base = templates[53]
+    main = entry[53]
+    MAIN = main.loop
+    vt = {l: ty for l, ty in ind.variant(main).items() if ind.read(main, main.frame, l) is not TOP}
+    flags, counters, numbers, _ = induct.classify_state(vt)
+    inv_bools = [l for l, ty in ind.invariant_live(main).items() if ty == "bool"]
+    signs = [l for l in inv_bools if ind.read(entry[45], main.frame, l) == Const(True) and ind.read(entry[53], main.frame, l) == Const(False)]
+    okroles = len(numbers) == 1 and len(counters) == 1 and len(signs) == 1
+    if not rep.ob("C07-R4", "anchor:state", okroles, "mantissa loop state by type: accumulator %s, fraction counter %s, flags %s, sign %s" % (
+            numbers, counters, flags, signs), body.site()):
+        return
+    LN, LD, LS = numbers[0], counters[0], signs[0]
+    F1 = main.frame
 
-    def seed_main(init, dot):
-        st = dict(base)
-        st[(frame, L["out"])] = Sym("N")
-        st[(frame, L["dots"])] = Sym("d")
-        st[(frame, L["init"])] = Const(init)
-        st[(frame, L["dot"])] = Const(dot)
-        st[(frame, L["neg"])] = Sym("neg")
+    def dval(v):
+        if isinstance(v, Agg) and v.path == "std::option::Option":
+            return v.field(0) if v.vi == 1 else Const(0)
+        return v
+
+    def flagstate(seg, fl, frame):
+        return tuple(induct.flag_of(ind.read(seg, frame, l)) for l in fl)
+
+    for first, sg in sorted(entry.items(), key=lambda x: str(x[0])):
+        cons = sg.store.get(("consumed",), ())
+        sgn = ind.read(sg, F1, LS)
+        good = ind.read(sg, F1, LN) == K(0) and dval(ind.read(sg, F1, LD)) == Const(0) and sgn == Const(first == 45) \
+            and cons == ((first,) if first in (45, 43) else ()) and flagstate(sg, flags, F1) == flagstate(main, flags, F1)
+        rep.ob("C07-R4", "prologue:first=%s" % (chr(first) if isinstance(first, int) else first), good,
+               "before the mantissa loop: accumulator %r (specified 0), fraction digits %r (0), negative = %r (specified %s), consumed %s (specified %s)" % (
+                   ind.read(sg, F1, LN), dval(ind.read(sg, F1, LD)), sgn, first == 45, cons, "the sign" if first in (45, 43) else "nothing"), body.site())
+
+    def seed_main(fs):
+        st = dict(main.store)
+        st[(F1, LN)] = N
+        st[(F1, LS)] = Sym("neg")
+        for l, f in zip(flags, fs):
+            ty = vt[l].replace(" ", "")
+            if ty == "bool":
+                st[(F1, l)] = Const(bool(f))
+            else:
+                st[(F1, l)] = some(D) if f == "Some" else NONE
+        if LD not in flags:
+            st[(F1, LD)] = D
+        st[("consumed",)] = ()
+        st[("pc",)] = ()
         return st
 
-    N, d, ten = Sym("N"), Sym("d"), K(10)
-    # ---- main loop: BFS over (init, dot, zero) -------------------------------------------------------------------
+    # ---- mantissa loop: bisimulation over (code flags, (after point, N known zero)) ---------------------------------------
+    init_fs = flagstate(main, flags, F1)
+    work = [(init_fs, (False, True))]
     seen = set()
-    work = [(False, False, True)]
     exp_entry = None
     n_steps = 0
     while work:
-        state = work.pop()
-        if state in seen:
+        pair = work.pop()
+        if pair in seen:
             continue
-        seen.add(state)
-        init, dot, zero = state
-        st0 = seed_main(init, dot)
+        seen.add(pair)
+        if len(seen) > 40:
+            rep.ob("C07-R4", "bisimulation", False, "more than 40 (code state, reference state) pairs")
+            return
+        fs, (after, nzero) = pair
         bad = []
         for b in BYTES:
-            look = [53] if b not in (101, 69) else None
-            streams = [[b, 53]] if look else [[b, 45, 53], [b, 43, 53], [b, 53, 53], [b, "EOF"], [b, 120]]
+            streams = [[b, 53]] if b not in (101, 69) else [[b, 45, 53], [b, 43, 53], [b, 53, 53], [b, "EOF"], [b, 120]]
             for stream in streams:
                 n_steps += 1
+                st0 = seed_main(fs)
+                st0[("stream",)] = tuple(stream)
                 try:
-                    dom, it, outs = run((H1, st0), stream)
+                    segs = ind.turn(main, st0)
                 except core.Undecided as e:
                     bad.append("byte %d: undecided: %s" % (b, e))
                     continue
                 digit = 48 <= b <= 57
                 dlt = b - 48
-                for o in outs:
-                    if o.kind == "stop" and o.value == H1:
-                        st = o.store
-                        cons = st.get(("consumed",), ())
-                        out2, dots2 = val(it, st, "out"), val(it, st, "dots")
-                        i2, d2 = val(it, st, "init"), val(it, st, "dot")
-                        if cons != (b,) or not isinstance(i2, Const) or not isinstance(d2, Const):
-                            bad.append("byte %d: consumed %s, flags %r %r" % (b, cons, i2, d2))
+                for sg in segs:
+                    cons = sg.store.get(("consumed",), ())
+                    if sg.kind == "stop" and sg.loop == MAIN:
+                        n2, d2 = ind.read(sg, F1, LN), dval(ind.read(sg, F1, LD))
+                        fs2 = flagstate(sg, flags, F1)
+                        if cons != (b,) or None in fs2:
+                            bad.append("byte %d: consumed %s, flags %r" % (b, cons, fs2))
                             continue
                         if digit:
-                            if out2 == T("+", T("*", N, ten), K(dlt)):
-                                pass
-                            elif out2 == N and zero and dlt == 0:
-                                pass
-                            else:
-                                bad.append("digit '%s': accumulator becomes %r (N %s known to be 0), expected N*10+%d" % (chr(b), out2, "is" if zero else "is NOT", dlt))
-                            want_d = T("i+", d, Const(1)) if dot else d
-                            if dots2 != want_d:
-                                bad.append("digit '%s' %s the point: fraction counter becomes %r, expected %r" % (chr(b), "after" if dot else "before", dots2, want_d))
-                            if d2.v != dot:
-                                bad.append("digit '%s' changes the point flag" % chr(b))
-                            z2 = zero and dlt == 0
-                            if not i2.v and not z2:
-                                bad.append("digit '%s': still 'not started' although a non-zero digit was read" % chr(b))
-                            work.append((bool(i2.v), bool(d2.v), z2))
+                            if not same(n2, T("+", T("*", N, TEN), K(dlt)), nzero):
+                                bad.append("digit '%s': accumulator becomes %r (N %s known to be 0), expected N*10+%d" % (chr(b), n2, "is" if nzero else "is NOT", dlt))
+                            want_d = T("+", D, K(1)) if after else D
+                            if not same(d2, want_d if LD not in flags or "Some" in fs else (K(1) if after else K(0))) and not same(d2, want_d):
+                                bad.append("digit '%s' %s the point: fraction counter becomes %r, expected %r" % (chr(b), "after" if after else "before", d2, want_d))
+                            work.append((fs2, (after, nzero and dlt == 0)))
                         elif b == 46:
-                            if dot:
+                            if after:
                                 bad.append("a second '.' is accepted")
-                            if out2 != N or dots2 != d or not d2.v:
-                                bad.append("'.': accumulator %r, counter %r, point flag %r" % (out2, dots2, d2))
-                            work.append((bool(i2.v), True, zero))
+                            if not same(n2, N, nzero) or not (same(d2, D) or (LD in flags and d2 == Const(0))):
+                                bad.append("'.': accumulator %r, counter %r" % (n2, d2))
+                            work.append((fs2, (True, nzero)))
                         else:
-                            bad.append("byte %d (%r) is accepted by the main loop" % (b, chr(b)))
-                    elif o.kind == "stop" and o.value == H2:
-                        st = o.store
-                        cons = st.get(("consumed",), ())
+                            bad.append("byte %d (%r) is accepted by the mantissa loop" % (b, chr(b)))
+                    elif sg.kind == "stop":
                         if b not in (101, 69):
                             bad.append("byte %d enters the exponent loop" % b)
                             continue
                         sign = stream[1]
                         want_cons = (b, sign) if sign in (45, 43) else (b,)
-                        n2 = val(it, st, "neg2")
-                        okk = cons == want_cons and val(it, st, "out") == N and val(it, st, "dots") == d and val(it, st, "exp") == Const(0) \
-                            and val(it, st, "init2") == Const(False) and n2 == Const(sign == 45)
-                        if not okk:
-                            bad.append("'%s' + %r: consumed %s, exp %r, neg %r, accumulator %r" % (chr(b), sign, cons, val(it, st, "exp"), n2, val(it, st, "out")))
+                        if cons != want_cons or not same(ind.read(sg, F1, LN), N, nzero) or not same(dval(ind.read(sg, F1, LD)), D if (LD not in flags or "Some" in fs) else K(0)):
+                            bad.append("'%s' + %r: consumed %s, accumulator %r" % (chr(b), sign, cons, ind.read(sg, F1, LN)))
                         else:
-                            exp_entry = st
-                    elif o.kind == "ret":
-                        v = o.value
+                            exp_entry = exp_entry or {}
+                            exp_entry[sign] = sg
+                    elif sg.kind == "ret":
+                        v = sg.value
                         is_err = isinstance(v, Agg) and v.path == "std::result::Result" and v.vi == 1
                         if is_err:
-                            ov = any(isinstance(p, T) and p.op == "overflows" and bb for p, bb in dom.pc(o.store))
-                            if (digit or (b == 46 and not dot) or b in (101, 69)) and not ov:
+                            ov = any(isinstance(p_, T) and p_.op == "overflows" and bb for p_, bb in ind.dom.pc(sg.store))
+                            if (digit or (b == 46 and not after) or b in (101, 69)) and not ov:
                                 bad.append("the well-formed continuation %r is rejected" % chr(b))
                         else:
                             bad.append("byte %d ends the reader with %r" % (b, v))
                     else:
-                        bad.append("byte %d: %s %s" % (b, o.kind, o.value))
-        rep.ob("C07-R4", "main:init=%s:dot=%s:N_is_zero=%s" % state, not bad,
-               "main loop from state (started=%s, after point=%s, N=0 %s): %s" % (init, dot, "known" if zero else "unknown", "all byte classes as specified" if not bad else "; ".join(bad[:4])),
-               body.site(), sample={"state": {"init": init, "dot": dot, "zero": zero}, "bytes": len(BYTES)})
+                        bad.append("byte %d: %s %s" % (b, sg.kind, sg.value))
+        rep.ob("C07-R4", "main:%s:after_point=%s:N_is_zero=%s" % ("".join(str(x)[0] for x in fs), after, nzero), not bad,
+               "mantissa loop from (code state %s, after point=%s, N=0 %s): %s" % (fs, after, "known" if nzero else "unknown", "all byte classes as specified" if not bad else "; ".join(bad[:4])),
+               body.site(), sample={"code_state": [str(x) for x in fs], "after_point": after, "n_zero": nzero, "bytes": len(BYTES)})
     rep.count("reader steps", n_steps)
-    rep.floor("C07-R4", "reachable main-loop states", len(seen), 4)
-    # ---- end of input in the main loop ---------------------------------------------------------------------------
-    for state in sorted(seen):
-        init, dot, zero = state
-        try:
-            dom, it, outs = run((H1, seed_main(init, dot)), ["EOF"])
-        except core.Undecided as e:
-            rep.ob("C07-R4", "end:main:%s" % (state,), False, "undecided: %s" % e)
-            continue
-        x = T("/", N, T("pow", ten, d))
-        good = len(outs) == 2
-        got = []
-        for o in outs:
-            v = o.value
-            r = v.field(0) if isinstance(v, Agg) and v.path == "std::result::Result" and v.vi == 0 else None
-            q = r.field(0) if isinstance(r, Agg) and r.path == "rational::Rational" else None
-            ng = dom.decide(o.store, Sym("neg"))
-            got.append((ng, repr(q)))
-            want = T("neg", x) if ng else x
-            if o.kind != "ret" or q != want or ng is None:
-                good = False
-        rep.ob("C07-R4", "end:main:init=%s:dot=%s" % (init, dot), good, "at the end of a literal without exponent the value is %s; specified (-)N / 10^d" % got, body.site())
-    # ---- exponent loop ----------------------------------------------------------------------------------------------
-    if not rep.ob("C07-R4", "exponent-entry", exp_entry is not None, "the exponent loop is entered from the main loop on e / E"):
-        return
-    E = Sym("E")
+    rep.floor("C07-R4", "reachable mantissa-loop pairs", len(seen), 4)
 
-    def seed_exp(init2, neg2=None):
-        st = dict(exp_entry)
-        st[(frame, L["exp"])] = E
-        st[(frame, L["init2"])] = Const(init2)
-        st[(frame, L["neg2"])] = Sym("eneg") if neg2 is None else Const(neg2)
-        return st
-    seen2 = set()
-    work = [(False, True)]
-    while work:
-        state = work.pop()
-        if state in seen2:
+    def result_value(sg):
+        v = sg.value
+        r = v.field(0) if isinstance(v, Agg) and v.path == "std::result::Result" and v.vi == 0 else None
+        return r.field(0) if isinstance(r, Agg) and r.path == "rational::Rational" else None
+
+    # ---- end of input in the mantissa loop --------------------------------------------------------------------------------
+    for fs, (after, nzero) in sorted(seen, key=str):
+        st0 = seed_main(fs)
+        st0[("stream",)] = ("EOF",)
+        try:
+            segs = ind.turn(main, st0)
+        except core.Undecided as e:
+            rep.ob("C07-R4", "end:main:%s" % (fs,), False, "undecided: %s" % e)
             continue
-        seen2.add(state)
-        init2, zero = state
+        dd = D if (LD not in flags or "Some" in fs) else K(0)
+        x = T("/", N, T("pow", TEN, dd))
+        good = len(segs) == 2
+        got = []
+        for sg in segs:
+            q = result_value(sg)
+            ng = ind.dom.decide(sg.store, Sym("neg"))
+            got.append((ng, repr(q)))
+            if sg.kind != "ret" or q is None or ng is None or not same(q, T("neg", x) if ng else x, nzero):
+                good = False
+        rep.ob("C07-R4", "end:main:%s:after_point=%s" % ("".join(str(x_)[0] for x_ in fs), after), good,
+               "at the end of a literal without exponent the value is %s; specified (-)N / 10^d" % got, body.site())
+    # ---- exponent loop ------------------------------------------------------------------------------------------------------
+    if not rep.ob("C07-R4", "exponent-entry", bool(exp_entry) and set(exp_entry) >= {45, 43, 53}, "the exponent loop is entered from the mantissa loop on e / E (signs seen: %s)" % sorted(map(str, exp_entry or {}))):
+        return
+    ex = exp_entry[53]
+    F2 = ex.frame
+    vt2 = {l: ty for l, ty in ind.variant(ex).items() if ind.read(ex, F2, l) is not TOP}
+    flags2, counters2, numbers2, _ = induct.classify_state(vt2)
+    inv2 = [l for l, ty in ind.invariant_live(ex).items() if ty == "bool"]
+    esign = [l for l in inv2 if ind.read(exp_entry[45], F2, l) == Const(True) and ind.read(exp_entry[53], F2, l) == Const(False)]
+    okx = len(counters2) == 1 and len(esign) == 1 and not numbers2
+    if not rep.ob("C07-R4", "anchor:exponent-state", okx, "exponent loop state by type: counter %s, flags %s, sign %s%s" % (
+            counters2, flags2, esign, "" if not numbers2 else "; the accumulator %s changes inside the loop" % numbers2), ex.body.site()):
+        return
+    LE, LES = counters2[0], esign[0]
+    e0 = dval(ind.read(ex, F2, LE))
+    rep.ob("C07-R4", "exponent:base", e0 == Const(0), "the exponent starts at %r (specified 0)" % (e0,), ex.body.site())
+    for sign_, sg_ in sorted(exp_entry.items(), key=lambda kv: str(kv[0])):
+        v_ = ind.read(sg_, F2, LES)
+        rep.ob("C07-R4", "exponent:sign=%s" % (chr(sign_) if sign_ in (45, 43) else "none"), v_ == Const(sign_ == 45),
+               "after e%s the exponent is negative = %r (specified %s)" % (chr(sign_) if sign_ in (45, 43) else "", v_, sign_ == 45), ex.body.site())
+
+    def seed_exp(fs, eneg=None):
+        st = dict(ex.store)
+        st[(F2, LE)] = Ee
+        for l, f in zip(flags2, fs):
+            if vt2[l].replace(" ", "") == "bool":
+                st[(F2, l)] = Const(bool(f))
+        st[(F2, LES)] = Sym("eneg") if eneg is None else Const(eneg)
+        st[("consumed",)] = ()
+        st[("pc",)] = ()
+        return st
+
+    seen2 = set()
+    work = [(flagstate(ex, flags2, F2), True)]
+    while work:
+        pair = work.pop()
+        if pair in seen2:
+            continue
+        seen2.add(pair)
+        if len(seen2) > 24:
+            break
+        fs, ezero = pair
         bad = []
         for b in BYTES:
+            st0 = seed_exp(fs)
+            st0[("stream",)] = (b, 53)
             try:
-                dom, it, outs = run((H2, seed_exp(init2)), [b, 53])
+                segs = ind.turn(ex, st0)
             except core.Undecided as e:
                 bad.append("byte %d: undecided: %s" % (b, e))
                 continue
             digit = 48 <= b <= 57
             dlt = b - 48
-            for o in outs:
-                if o.kind == "stop" and o.value == H2:
-                    st = o.store
-                    e2, i2 = val(it, st, "exp"), val(it, st, "init2")
+            for sg in segs:
+                if sg.kind == "stop" and sg.loop == ex.loop:
                     if not digit:
                         bad.append("byte %d (%r) is accepted in the exponent" % (b, chr(b)))
                         continue
-                    if e2 == T("i+", T("i*", E, Const(10)), Const(dlt)):
-                        pass
-                    elif e2 == E and zero and dlt == 0:
-                        pass
-                    else:
+                    e2 = dval(ind.read(sg, F2, LE))
+                    if not same(e2, T("+", T("*", Ee, TEN), K(dlt)), ezero=ezero):
                         bad.append("exponent digit '%s': exponent becomes %r, expected E*10+%d" % (chr(b), e2, dlt))
-                    if val(it, st, "out") != N or val(it, st, "dots") != d:
-                        bad.append("exponent digit changes the mantissa")
-                    z2 = zero and dlt == 0
-                    if isinstance(i2, Const):
-                        if not i2.v and not z2:
-                            bad.append("exponent: still 'not started' after a non-zero digit")
-                        work.append((bool(i2.v), z2))
+                    if not same(ind.read(sg, F1, LN), N) or sg.store.get(("consumed",), ()) != (b,):
+                        bad.append("exponent digit changes the mantissa or consumes %s" % (sg.store.get(("consumed",), ()),))
+                    fs2 = flagstate(sg, flags2, F2)
+                    if None in fs2:
+                        bad.append("exponent flags %r" % (fs2,))
                     else:
-                        bad.append("exponent flag %r" % (i2,))
-                elif o.kind == "stop":
-                    bad.append("byte %d returns to the main loop" % b)
-                elif o.kind == "ret":
-                    v = o.value
+                        work.append((fs2, ezero and dlt == 0))
+                elif sg.kind == "stop":
+                    bad.append("byte %d returns to the mantissa loop" % b)
+                elif sg.kind == "ret":
+                    v = sg.value
                     is_err = isinstance(v, Agg) and v.path == "std::result::Result" and v.vi == 1
-                    ov = any(isinstance(p, T) and p.op == "overflows" and bb for p, bb in dom.pc(o.store))
+                    ov = any(isinstance(p_, T) and p_.op == "overflows" and bb for p_, bb in ind.dom.pc(sg.store))
                     if not is_err:
                         bad.append("byte %d ends the reader with %r" % (b, v))
                     elif digit and not ov:
                         bad.append("exponent digit %r is rejected" % chr(b))
                 else:
-                    bad.append("byte %d: %s" % (b, o.kind))
-        rep.ob("C07-R4", "exponent:init=%s:E_is_zero=%s" % state, not bad,
-               "exponent loop from state (started=%s, E=0 %s): %s" % (init2, "known" if zero else "unknown", "all byte classes as specified" if not bad else "; ".join(bad[:4])),
-               body.site())
-    for init2 in sorted({s[0] for s in seen2}):
-        for neg2 in (False, True):
+                    bad.append("byte %d: %s" % (b, sg.kind))
+        rep.ob("C07-R4", "exponent:%s:E_is_zero=%s" % ("".join(str(x)[0] for x in fs), ezero), not bad,
+               "exponent loop from (code state %s, E=0 %s): %s" % (fs, "known" if ezero else "unknown", "all byte classes as specified" if not bad else "; ".join(bad[:4])),
+               ex.body.site())
+    for fs in sorted({p[0] for p in seen2}, key=str):
+        for eneg in (False, True):
+            st0 = seed_exp(fs, eneg)
+            st0[("stream",)] = ("EOF",)
             try:
-                dom, it, outs = run((H2, seed_exp(init2, neg2)), ["EOF"])
+                segs = ind.turn(ex, st0)
             except core.Undecided as e:
-                rep.ob("C07-R4", "end:exponent:%s:%s" % (init2, neg2), False, "undecided: %s" % e)
+                rep.ob("C07-R4", "end:exponent:%s:%s" % (fs, eneg), False, "undecided: %s" % e)
                 continue
-            p = T("pow", ten, E)
-            x = T("/", T("/" if neg2 else "*", N, p), T("pow", ten, d))
-            good = len(outs) == 2
+            p10 = T("pow", TEN, Ee)
+            x = T("/", T("/" if eneg else "*", N, p10), T("pow", TEN, D))
+            good = len(segs) == 2
             got = []
-            for o in outs:
-                v = o.value
-                r = v.field(0) if isinstance(v, Agg) and v.path == "std::result::Result" and v.vi == 0 else None
-                q = r.field(0) if isinstance(r, Agg) and r.path == "rational::Rational" else None
-                ng = dom.decide(o.store, Sym("neg"))
+            for sg in segs:
+                q = result_value(sg)
+                ng = ind.dom.decide(sg.store, Sym("neg"))
                 got.append((ng, repr(q)))
-                if o.kind != "ret" or q != (T("neg", x) if ng else x) or ng is None:
+                if sg.kind != "ret" or q is None or ng is None or not (same(q, T("neg", x) if ng else x) or same(q, subst_d0(T("neg", x) if ng else x))):
                     good = False
-            rep.ob("C07-R4", "end:exponent:init=%s:negative=%s" % (init2, neg2), good,
-                   "at the end of the exponent the value is %s; specified (-)N %s 10^E / 10^d" % (got, "/" if neg2 else "*"), body.site())
+            rep.ob("C07-R4", "end:exponent:%s:negative=%s" % ("".join(str(x_)[0] for x_ in fs), eneg), good,
+                   "at the end of the exponent the value is %s; specified (-)N %s 10^E / 10^d" % (got, "/" if eneg else "*"), body.site())
+
+
+def subst_d0(t):
+    """The same term with d = 0 (a literal whose code state says 'no point seen' carries no counter)."""
+    if isinstance(t, Sym) and t.name == "d":
+        return K(0)
+    if isinstance(t, T):
+        return T(t.op, *[subst_d0(a) for a in t.args])
+    return t
 
 
 # ---- R5: the lexer produces every well-formed literal as one NUMBER token ----------------------------------------
